@@ -43,6 +43,10 @@ type Data struct {
 	Algo   uint16
 }
 
+// maxCookieRecords bounds the number of cookie records accepted in one message
+// (servers issue eight).
+const maxCookieRecords = 64
+
 // NTS-KE record types
 const (
 	RecEom       uint16 = 0
@@ -76,6 +80,7 @@ var (
 	errReadBadRequest           = errors.New("ntske received bad request error message")
 	errReadUnrecognisedCritical = errors.New("ntske received unrecognized critical error message")
 	errReadUnknown              = errors.New("ntske received unknown error message")
+	errReadTooManyCookies       = errors.New("ntske received too many cookie records")
 	errReadRecordLen            = errors.New("ntske received record of unexpected length")
 	errReadAeadLen              = errors.New("ntske received AEAD algorithm record of unexpected length")
 )
@@ -347,6 +352,11 @@ func ReadData(ctx context.Context, log *slog.Logger, reader *bufio.Reader, data 
 			data.Algo = aead[0]
 
 		case RecCookie:
+			// A peer can stream cookie records for as long as it likes; do
+			// not keep more of them than any exchange has a use for.
+			if len(data.Cookie) == maxCookieRecords {
+				return errReadTooManyCookies
+			}
 			cookie := make([]byte, msg.BodyLen)
 			_, err := io.ReadFull(reader, cookie)
 			if err != nil {
